@@ -155,16 +155,18 @@ def post_key(c, q):
 def ret_shuffle(c):
     s = c["self"]; key = c["key"]; bp = s.attrs["batch_processor"]
     D, B, bs, pad = (bp.attrs[k] for k in ("n_devices", "n_batches", "batch_size", "n_pad"))
-    I = REG_I[0]; PERMF = I.rand["PERMF"]
+    from pyvc.models import libs as _L
+    PERMF = _L.RAND["PERMF"]
     idxs = SArr((N,), lambda idx: PERMF(key, toz3(idx[0])), tag=("perm", key))
     flat = lambda l: (toz3(l[0]) * B + toz3(l[1])) * bs + toz3(l[2])
     states = vec_array((D, B, bs, SD), lambda l: z3.If(flat(l) < N, ST(PERMF(key, flat(l))), ZVEC))
     mask = SArr((D, B, bs), lambda idx: flat(idx) >= N)
     return (idxs, states, mask)
 def ret_reorder(c):
-    idxs, vals = c["shuffled_state_idxs"], c["values"]; I = REG_I[0]
+    from pyvc.models import libs as _L
+    idxs, vals = c["shuffled_state_idxs"], c["values"]
     key = idxs.tag[1]
-    return SArr((N,), lambda idx: vals.get((I.rand["POSF"](key, toz3(idx[0])),)))
+    return SArr((N,), lambda idx: vals.get((_L.RAND["POSF"](key, toz3(idx[0])),)))
 REG_I = [None]
 REGISTRY[f"{SA}._shuffle_states"].returns = ret_shuffle
 REGISTRY[f"{SA}._reorder_values"].returns = ret_reorder
